@@ -6,6 +6,7 @@ import (
 	"go/types"
 	"sort"
 	"strings"
+	"time"
 
 	"golang.org/x/tools/go/ssa"
 
@@ -67,6 +68,8 @@ type Exec struct {
 	closures             map[int]*Val
 	rootInfo             *rootInfo
 	skolems              []*smt.Term
+	projMemo             map[[2]int]*smt.Term
+	deadline             time.Time
 	exprTypes            map[Expr]types.Type
 	oldSet               map[int]bool
 }
@@ -512,6 +515,17 @@ func (x *Exec) execLoopInvariant(fr *Frame, l *loop, spec *LoopSpec, entry []*Ed
 	for round := 0; round < 8; round++ {
 		x.dry++
 		nh := len(x.hyps)
+		// axioms memoised during a dry run would be lost with its hypotheses:
+		// snapshot the memo tables and restore them afterwards
+		snapUF := copyBoolMap(x.ufDecl)
+		snapRecips := map[int]*smt.Term{}
+		for k, v := range x.recips {
+			snapRecips[k] = v
+		}
+		snapStr := map[string]*smt.Term{}
+		for k, v := range x.strLits {
+			snapStr[k] = v
+		}
 		st := x.havocState(pre, modCells, modHeaps, fmt.Sprintf("dry%d", round))
 		layer := newEnv(env)
 		hdr := x.b.Fresh("dryreach", "Bool")
@@ -519,6 +533,9 @@ func (x *Exec) execLoopInvariant(fr *Frame, l *loop, spec *LoopSpec, entry []*Ed
 		r := x.execRegion(fr, l, pending, layer)
 		x.hyps = x.hyps[:nh]
 		x.dry--
+		x.ufDecl = snapUF
+		x.recips = snapRecips
+		x.strLits = snapStr
 		changed := false
 		all := append(append([]*Edge{}, r.backs...), r.exits...)
 		for _, e := range all {
@@ -543,7 +560,9 @@ func (x *Exec) execLoopInvariant(fr *Frame, l *loop, spec *LoopSpec, entry []*Ed
 	st := x.havocState(pre, modCells, modHeaps, fmt.Sprintf("loop%d", l.ordinal))
 	layer := newEnv(env)
 	hdrReach := x.b.Fresh(fmt.Sprintf("reach_loop%d", l.ordinal), "Bool")
-	_ = reachIn
+	// being inside the loop implies having entered it: the path facts that
+	// guard the loop entry hold in every iteration
+	x.axiom(x.b.Implies(hdrReach, reachIn))
 	// header phis are havocked by execBlock via a havoc edge
 	hedge := &Edge{from: nil, to: l.header, cond: hdrReach, st: st, env: layer}
 	// evaluate invariants as assumptions once phis exist: execBlock calls back.
@@ -604,6 +623,9 @@ func (x *Exec) havocState(pre *State, modCells map[*cellKey]bool, modHeaps map[s
 // blocks
 
 func (x *Exec) execBlock(fr *Frame, b *ssa.BasicBlock, edges []*Edge, env *Env) []*Edge {
+	if !x.deadline.IsZero() && time.Now().After(x.deadline) {
+		panic(unsupported("verification condition generation exceeded its time budget"))
+	}
 	var cs []*smt.Term
 	for _, e := range edges {
 		cs = append(cs, e.cond)
@@ -817,4 +839,12 @@ func (x *Exec) skolemizeGoal(g *smt.Term, depth int) *smt.Term {
 		return x.b.And(ps...)
 	}
 	return g
+}
+
+func copyBoolMap(m map[string]bool) map[string]bool {
+	out := make(map[string]bool, len(m))
+	for k, v := range m {
+		out[k] = v
+	}
+	return out
 }
